@@ -4,7 +4,7 @@ import re
 from vcheck import *
 from areas.replfetcher import scenarios_from, sim_states
 
-PROPS = ["C01", "C10"]
+PROPS = ["C01", "C02", "C10"]
 PACKAGES = ["drv_net"]
 _common_note = ("trusted: TLC; the driver's id mapping (own SHA-256/XOR ranking, value table); schedules are imposed through the cfg-guarded gates on a "
                 "current-thread runtime (bodies touching one file run in spawn order, I1); fs::write/remove_file take effect when they return")
@@ -25,6 +25,15 @@ META = {
         "note": _common_note + "; the clean-up threshold (1638 records) is reached with filler records only in the padded scenarios", "design_ref": "5 Area RecordStore",
     },
 }
+META["C02"] = {
+    "engine": "recordstore", "level": "model_checking",
+    "technique": "same store model extended with Crash/Restart (pending bodies and notes lost, optionally one torn file); TLC places the crash after every prefix of every bounded behaviour; replayed on the real store by dropping the parked bodies and reopening the directory with the same identity; torn files are byte prefixes of the real ciphertext",
+    "text": "C02's clauses (NoCorruptAfterRestart, CompletedWritesDurable, RemovalsStay) are evaluated on the Restart step of every behaviour: TLC enumerates all crash points of the bounded model "
+            "(every subset of released bodies) and simulates deeper ones; the driver realises each on the real store (parked bodies are never released, the directory is reopened with the same "
+            "peer id and encryption seed) and cuts the file of the write in progress at 0,1,2,15,16,17,len/2,len-17,len-16,len-1 bytes (thorough: every prefix length, round-robin over runs).",
+    "note": _common_note + "; a completed fs::write is durable and a torn write leaves a byte prefix (no block-level reordering); the store is built with with_config and a fixed seed -- the derivation of the seed from the peer id (driver.rs) is covered by the node-level areas",
+    "design_ref": "5 Area RecordStore",
+}
 CLAUSES = {
     "C01": ("C01_",),
     "C10": ("C10_",),
@@ -32,16 +41,19 @@ CLAUSES = {
 }
 
 
-def model_phase(v, w, thorough, scn_path):
-    mc = tlc("recordstore", "MCRecordStore", "MCRecordStore_thorough.cfg" if thorough else "MCRecordStore.cfg", w, workers=12, timeout=3400)
+def model_phase(v, w, thorough, scn_path, crash=False):
+    if crash:
+        mc = tlc("recordstore", "MCRecordStore", "MCRecordStore_crash_thorough.cfg" if thorough else "MCRecordStore_crash.cfg", w, workers=12, timeout=3400)
+    else:
+        mc = tlc("recordstore", "MCRecordStore", "MCRecordStore_thorough.cfg" if thorough else "MCRecordStore.cfg", w, workers=12, timeout=3400)
     v.add_model(mc)
     if mc.violated:
         v.violation("model:" + mc.violated, "the model of the store falsifies a clause beyond the listed known findings (design-level counterexample)",
                     {"area": "recordstore", "tlc": mc.error_text[:8000]})
-    never = [a for a in mc.actions_never_taken() if a.startswith("Do") and a not in ("DoRestart", "DoGet", "DoQuote")]
+    never = [a for a in mc.actions_never_taken() if a.startswith("Do") and a not in (("DoGet", "DoQuote") if crash else ("DoRestart", "DoGet", "DoQuote"))]
     if never:
         raise ToolError("actions never taken in MCRecordStore: %s" % never)
-    sim = tlc("recordstore", "MCRecordStore", "MCRecordStore_sim.cfg", w, workers=1, simulate="num=%d" % (4000 if thorough else 400), depth=16,
+    sim = tlc("recordstore", "MCRecordStore", "MCRecordStore_crash_sim.cfg" if crash else "MCRecordStore_sim.cfg", w, workers=1, simulate="num=%d" % (4000 if thorough else 400), depth=16,
               coverage=False, timeout=3000, extra=["-seed", str(seed())])
     if sim.violated:
         v.violation("model:" + sim.violated, "clause falsified on a simulated model behaviour beyond the listed known findings",
@@ -59,12 +71,12 @@ def run(prop, tier, replay=None):
     if replay:
         write_ndjson(scn_path, [replay["scenario"]])
     else:
-        cache = os.path.join(WORK, "cache-recordstore-scenarios.ndjson")
+        cache = os.path.join(WORK, "cache-recordstore-scenarios%s.ndjson" % ("-crash" if prop == "C02" else ""))
         if os.environ.get("VERIF_SKIP_MODEL") == "1" and os.path.exists(cache):
             shutil.copy(cache, scn_path)
             v.cov["states"] = v.cov["transitions"] = 1
         else:
-            model_phase(v, w, thorough, scn_path)
+            model_phase(v, w, thorough, scn_path, crash=(prop == "C02"))
             shutil.copy(scn_path, cache)
     build(PACKAGES)
     runs = []
@@ -72,12 +84,14 @@ def run(prop, tier, replay=None):
     args = ["--scenarios", scn_path, "--out", t1, "--work", os.path.join(w, "runs"), "--nk", 4, "--nv", 2, "--max", 2, "--cache", 1]
     if not replay:
         args += ["--random", 1500 if thorough else 120, "--steps", 60]
+    if prop == "C02":
+        args += ["--crash", 100, "--cuts", 400 if thorough else 10]
     run_driver("drv_store", args, w)
     runs.append((t1, "RecordStoreTrace.cfg"))
     if not replay:
         t2 = os.path.join(w, "trace_big.ndjson")
         run_driver("drv_store", ["--out", t2, "--work", os.path.join(w, "runs_big"), "--nk", 6, "--nv", 3, "--max", 3, "--cache", 2,
-                                 "--random", 1500 if thorough else 120, "--steps", 80], w)
+                                 "--random", 1500 if thorough else 120, "--steps", 80] + (["--crash", 100, "--cuts", 400 if thorough else 10] if prop == "C02" else []), w)
         runs.append((t2, "RecordStoreTrace_big.cfg"))
     kfs = {k["id"]: k for k in kf_for(prop)}
     all_steps = 0
@@ -127,7 +141,7 @@ def run(prop, tier, replay=None):
         all_steps += len(steps)
         nruns += sum(1 for e in events if e["ev"] == "Reset")
         for e in steps:
-            if e["ev"] in ("PutVerified", "Remove", "RunTask", "HandleNote", "Cleanup", "Quote", "PaymentReceived"):
+            if e["ev"] in ("PutVerified", "Remove", "RunTask", "HandleNote", "Cleanup", "Quote", "PaymentReceived", "Restart"):
                 distinct.add(json.dumps([cfg, e["ev"], e["k"], e["v"], e["t"], e["n"], e["res"], e["idx"], e["rb"], e["tasks"], e["notes"]], sort_keys=True))
         if not samples:
             samples = [scenario_of(len(events))[:8]] + [{k: e[k] for k in ("ev", "k", "v", "t", "n", "res", "idx", "byDist", "far", "cache", "files", "rb", "tasks", "notes", "src")} for e in steps[:3]]
